@@ -153,8 +153,12 @@ def z3var(name):
     return t
 
 
+INT_NAMES = set()
+
+
 def declare_int(name):
     """Declare `name` as an integer-valued symbol; returns the z3 Int."""
+    INT_NAMES.add(name)
     i = z3.Int(name)
     _Z3VARS[name] = z3.ToReal(i)
     return i
@@ -471,9 +475,32 @@ class SReal:
         if self.isint:
             return self
         e = eng()
+        if self.d is ONE:
+            # (a) v = w - fl(w) + integer terms: already reduced, floor is the integer part that is syntactically visible
+            ints = {}
+            rest = {}
+            for m, c in self.n.t.items():
+                if len(m) == 1 and m[0][1] == 1 and m[0][0] in e.floor_args and c.denominator == 1:
+                    ints[m[0][0]] = c
+                else:
+                    rest[m] = c
+            if ints:
+                restp = P(rest)
+                for name, c in ints.items():
+                    if c == -1 and e.floor_args[name] == restp.add(P({((k, 1),): v for k, v in ints.items() if k != name})):
+                        # self = arg - floor(arg)  in [0,1)
+                        return SReal.const(0)
+                cst = restp.cval() if restp.is_const() else None
+            # (b) same argument seen before on this path: same floor symbol
+            hit = e.floor_memo.get(self.n.key())
+            if hit is not None:
+                return hit
         name = f"fl!{next(e.fresh)}"
         k = SReal.sym(name, isint=True)
         e.assume(z3.And(self.rel(lambda a, b: a >= b, k), self.rel(lambda a, b: a < b, k + 1)))
+        if self.d is ONE:
+            e.floor_args[name] = self.n
+            e.floor_memo[self.n.key()] = k
         return k
 
     def floor(self):
